@@ -9,6 +9,7 @@ package main
 import (
 	"fmt"
 	"go/ast"
+	"go/token"
 	"go/types"
 )
 
@@ -144,4 +145,160 @@ func ruleC20Handoff(p *Prog, r *Res) {
 		}
 	}
 	r.Floor(rule, 1, n)
+}
+
+// ---- C20-c: a published PcapInfo is immutable ----
+
+func init() {
+	register("C20",
+		"C20-c (AST, typed): *pcapmetadata.PcapInfo objects are published in Builder.knownPcaps and read from there by the service goroutine and, through KnownPcaps and JSON encoding, by request goroutines — reads the confinement analysis cannot see. The importer may therefore write the fields of a PcapInfo only while the object is still its own: every assignment to (or ++ of) a PcapInfo field through a pointer variable is either dominated by an assignment of a fresh composite literal to that variable, or lies in an if-branch guarded by the same never-reassigned boolean that guards that fresh assignment (`updateInfo := info == nil; if updateInfo { info = &PcapInfo{…} } … if updateInfo { info.X = … }`).",
+		func(p *Prog, r *Res) {
+			const rule = "C20-c published-pcapinfo-immutable"
+			r.Rule(rule + ": PcapInfo fields are written only on objects created in the same function")
+			pi := p.Named("pcapmetadata", "PcapInfo")
+			if pi == nil {
+				p.anchorFail("pcapmetadata.PcapInfo")
+				return
+			}
+			n := 0
+			for _, f := range p.FnList {
+				if f.Body() == nil || (f.Short != "builder" && f.Short != "manager" && f.Short != "pcapmetadata" && f.Short != "main") {
+					continue
+				}
+				info := f.Pkg.TypesInfo
+				var fl *Flow
+				// fresh assignments: v = &PcapInfo{…} / v := &PcapInfo{…}, with the boolean guards they sit under
+				type fresh struct {
+					v      types.Object
+					node   ast.Node
+					guards map[types.Object]bool
+				}
+				var freshes []fresh
+				guardsOf := func(parents []ast.Node, self ast.Node) map[types.Object]bool {
+					g := map[types.Object]bool{}
+					for i, par := range parents {
+						is, ok := par.(*ast.IfStmt)
+						if !ok {
+							continue
+						}
+						var child ast.Node = self
+						if i+1 < len(parents) {
+							child = parents[i+1]
+						}
+						if child != ast.Node(is.Body) {
+							continue
+						}
+						if o := identObj(info, is.Cond); o != nil {
+							g[o] = true
+						}
+					}
+					return g
+				}
+				inspectParents(f.Body(), func(x ast.Node, parents []ast.Node) bool {
+					as, ok := x.(*ast.AssignStmt)
+					if !ok || len(as.Lhs) != len(as.Rhs) {
+						return true
+					}
+					for i, rh := range as.Rhs {
+						ue, ok := ast.Unparen(rh).(*ast.UnaryExpr)
+						if !ok || ue.Op != token.AND {
+							continue
+						}
+						cl, ok := ast.Unparen(ue.X).(*ast.CompositeLit)
+						if !ok {
+							continue
+						}
+						if nt := namedOf(info.TypeOf(cl)); nt == nil || nt.Obj() != pi.Obj() {
+							continue
+						}
+						if o := identObj(info, as.Lhs[i]); o != nil {
+							freshes = append(freshes, fresh{o, as, guardsOf(parents, as)})
+						}
+					}
+					return true
+				})
+				reassigned := func(o types.Object) int {
+					c := 0
+					ast.Inspect(f.Body(), func(y ast.Node) bool {
+						if as, ok := y.(*ast.AssignStmt); ok {
+							for _, l := range as.Lhs {
+								if sameObj(info, l, o) {
+									c++
+								}
+							}
+						}
+						return true
+					})
+					return c
+				}
+				inspectParents(f.Body(), func(x ast.Node, parents []ast.Node) bool {
+					var target ast.Expr
+					switch s := x.(type) {
+					case *ast.AssignStmt:
+						for _, l := range s.Lhs {
+							if se, ok := ast.Unparen(l).(*ast.SelectorExpr); ok {
+								if v, ok := info.Uses[se.Sel].(*types.Var); ok && v.IsField() {
+									if nt := namedOf(info.TypeOf(se.X)); nt != nil && nt.Obj() == pi.Obj() {
+										target = se
+									}
+								}
+							}
+						}
+					case *ast.IncDecStmt:
+						if se, ok := ast.Unparen(s.X).(*ast.SelectorExpr); ok {
+							if v, ok := info.Uses[se.Sel].(*types.Var); ok && v.IsField() {
+								if nt := namedOf(info.TypeOf(se.X)); nt != nil && nt.Obj() == pi.Obj() {
+									target = se
+								}
+							}
+						}
+					}
+					if target == nil {
+						return true
+					}
+					se := target.(*ast.SelectorExpr)
+					vo := identObj(info, se.X)
+					n++
+					key := fmt.Sprintf("%s write of PcapInfo.%s (line +%d)", f.Key(), se.Sel.Name, lineOf(p.Fset, x)-lineOf(p.Fset, f.Node()))
+					if vo == nil {
+						r.Bad(rule, key, p.Pos(x), "the PcapInfo is reached through "+types.ExprString(se.X)+", not through a local pointer whose freshness can be established")
+						return true
+					}
+					if _, isPtr := vo.Type().Underlying().(*types.Pointer); !isPtr {
+						r.Ok(rule, key, p.Pos(x), "write to a local value (a copy)")
+						return true
+					}
+					ok, why := false, "no assignment of a fresh &PcapInfo{…} to "+vo.Name()+" in this function"
+					myGuards := guardsOf(parents, x)
+					for _, fr := range freshes {
+						if fr.v != vo {
+							continue
+						}
+						if len(fr.guards) == 0 {
+							if fl == nil {
+								fl = p.Flow(f)
+							}
+							res := fl.Reach([]Pt{fl.Entry()}, func(n ast.Node) bool { return n == x }, func(n ast.Node) bool { return n == fr.node })
+							if !res.Found {
+								ok, why = true, "dominated by "+vo.Name()+" = &PcapInfo{…}"
+							} else {
+								why = "a path reaches the write without the fresh assignment (" + fl.traceString(res) + ")"
+							}
+							continue
+						}
+						for g := range fr.guards {
+							if myGuards[g] && reassigned(g) == 1 {
+								ok, why = true, "both the fresh assignment and the write are guarded by `"+g.Name()+"`, which is assigned once"
+							}
+						}
+						if !ok {
+							why = "the fresh assignment is conditional (guarded by a boolean) and this write is not under the same guard"
+						}
+					}
+					r.Check(ok, rule, key, p.Pos(x), why, "a PcapInfo that may already be published in Builder.knownPcaps is written by the importer ("+why+"): the service goroutine and request goroutines read the same object without synchronisation")
+					return true
+				})
+			}
+			r.Floor(rule, 4, n)
+		})
 }
